@@ -129,5 +129,25 @@ Definition run_sop pf js flds (cur : config) (st : fstate) (o : sop) : Z * fstat
   | OpDelete n => remove_config js flds cur st n
   end.
 
+(* a request whose write to disk fails (ENOSPC, EFBIG, EIO, ... anywhere in writeSettings after the
+   JSON encoding): everything before the write happens as usual, then the request reports error 6
+   and the file is what it was.  [io_ok = true] is the ordinary request. *)
+Definition run_sop_io pf js flds (cur : config) (st : fstate) (o : sop) (io_ok : bool) : Z * fstate :=
+  let '(code, st') := run_sop pf js flds cur st o in
+  if io_ok then (code, st') else if code =? 0 then (6, st) else (code, st).
+
+(* a history of requests of one process, each with its disk outcome *)
+Definition run_hist pf js flds (cur : config) (st : fstate) (h : list (sop * bool)) : fstate :=
+  fold_left (fun s ob => snd (run_sop_io pf js flds cur s (fst ob) (snd ob))) h st.
+
+(* the requests of a history that succeeded *)
+Fixpoint successes pf js flds (cur : config) (st : fstate) (h : list (sop * bool)) : list (sop * bool) :=
+  match h with
+  | [] => []
+  | ob :: r =>
+      let '(code, st') := run_sop_io pf js flds cur st (fst ob) (snd ob) in
+      if code =? 0 then ob :: successes pf js flds cur st' r else successes pf js flds cur st r
+  end.
+
 Definition run_sops pf js flds (cur : config) (st : fstate) (os : list sop) : fstate :=
   fold_left (fun s o => snd (run_sop pf js flds cur s o)) os st.
